@@ -19,7 +19,7 @@ from simkit.scriptprog import ProgramRunner, gen_program  # noqa: E402
 from simkit.world import InvalidScenario, result  # noqa: E402
 
 PROPERTY = "C01"
-RUNS = {"quick": 24_000, "thorough": 3_000_000}
+RUNS = {"quick": 24_000, "thorough": 30_000_000}
 WALL = {"quick": 50, "thorough": 1500}
 BATCH = {"quick": 300, "thorough": 2000}
 RULE = (
